@@ -128,8 +128,10 @@ impl Add for I64 {
         match (self, rhs) {
             (Num(lhs), Num(rhs)) => match lhs.checked_add(rhs) {
                 Some(n) => Num(n),
+                // An overflow can only occur if both operands have the same
+                // sign, which then is the sign of the exact result.
                 None => {
-                    if lhs > 0 && rhs > 0 || lhs < 0 && rhs < 0 {
+                    if lhs > 0 {
                         PlusInf
                     } else {
                         MinusInf
@@ -152,8 +154,11 @@ impl Sub for I64 {
         match (self, rhs) {
             (Num(lhs), Num(rhs)) => match lhs.checked_sub(rhs) {
                 Some(n) => Num(n),
+                // An overflow can only occur if `lhs` is non-negative and
+                // `rhs` is negative (exact result positive) or if `lhs` is
+                // negative and `rhs` is positive (exact result negative).
                 None => {
-                    if lhs > 0 && rhs < 0 || lhs < 0 && rhs > 0 {
+                    if rhs < 0 {
                         PlusInf
                     } else {
                         MinusInf
